@@ -373,8 +373,8 @@ var hostileBin = [][]byte{
 	uv(1 << 59),              // (v<<4) wraps negative
 	uv(1 << 40),              // 1 TiB
 	uv(1 << 31), uv(1 << 32), // int32 edges
-	uv(1 << 30),              // 1 GiB = zngio.MaxSize
-	uv(1<<30 + 1),            //
+	uv(1 << 30),                // 1 GiB = zngio.MaxSize
+	uv(1<<30 + 1),              //
 	uv(1 << 20), uv(1<<20 + 1), // = Max used by the harness
 	uv(100000), uv(100001), // MaxRecordFields etc.
 	{0xff, 0xff, 0xff, 0xff, 0xff, 0xff, 0xff, 0xff, 0xff, 0xff, 0xff}, // overlong varint
